@@ -48,6 +48,10 @@ type c43Case struct {
 	LateJoins  int `json:"late_joins,omitempty"`
 	LateLeaves int `json:"late_leaves,omitempty"`
 	Ops      []c43Op `json:"ops"`
+	// ShowMax: status.showMaxPlayers + 1 (0 = leave the default of 1000). The
+	// configured maximum is cosmetic: the online count is reported as it is, also
+	// when it exceeds the maximum.
+	ShowMax int `json:"show_max,omitempty"`
 }
 
 func c43OpFrame(op c43Op) []byte {
@@ -86,7 +90,12 @@ func c43Run(c c43Case) verifkit.Result {
 
 func c43RunInner(c c43Case) (res verifkit.Result) {
 	mgr := event.New()
-	p := c43NewProxy(mgr, nil, func(cfg *config.Config) { cfg.OnlineMode = false })
+	p := c43NewProxy(mgr, nil, func(cfg *config.Config) {
+		cfg.OnlineMode = false
+		if c.ShowMax > 0 {
+			cfg.Status.ShowMaxPlayers = c.ShowMax - 1
+		}
+	})
 
 	var all []*c43Client
 	defer func() {
@@ -323,6 +332,9 @@ func c43RunInner(c c43Case) (res verifkit.Result) {
 			if fi >= len(frames) {
 				return verifkit.Fail("status:no-response", "status request got no response (frames: %d)", len(frames))
 			}
+			if c.ShowMax > 0 && online > c.ShowMax-1 {
+				labels = append(labels, "more-players-online-than-showMaxPlayers")
+			}
 			if v := c43CheckResponse(frames[fi], wantProto, online, supported, c.Protocol); v != nil {
 				if v.Key != "status:advertised-protocol-unsupported" {
 					return verifkit.Result{V: v}
@@ -509,6 +521,7 @@ func c43Gen(t *rapid.T) c43Case {
 		Port:     rapid.SampledFrom([]uint16{25565, 0, 1, 65535, 25577}).Draw(t, "port"),
 	}
 	c.Joins = rapid.SampledFrom([]int{0, 1, 2, 3, 5}).Draw(t, "joins")
+	c.ShowMax = rapid.SampledFrom([]int{0, 0, 1, 2, 3, 5, 101}).Draw(t, "showMax")
 	c.Leaves = rapid.IntRange(0, c.Joins).Draw(t, "leaves")
 	if rapid.IntRange(0, 3).Draw(t, "late") == 0 {
 		c.LateJoins = rapid.IntRange(0, 2).Draw(t, "lateJoins")
